@@ -31,8 +31,18 @@ Theorem C13_extra_tensors_ignored (g : graph T attrs) feed x t :
   lookup_last feed x = None ->
   validate_shapes T attrs shape_of g ((x, t) :: feed) = validate_shapes T attrs shape_of g feed.
 Proof. exact (extra_tensors_ignored T attrs shape_of g feed x t). Qed.
+(* in particular: declared inputs that are backed by initializers -- any number of them, wherever they stand
+   in the declaration -- need no tensor and are held to nothing when one is supplied *)
+Theorem C13_initializer_backed_inputs_need_no_tensor (g : graph T attrs) feed :
+  (forall n decl, In (n, decl) (input_shapes T attrs g) -> is_param T attrs g n = true) ->
+  validate_shapes T attrs shape_of g feed = true.
+Proof.
+  intros H. apply (proj2 (C13_accepts_iff_signature_satisfied g feed)).
+  intros n decl Hin. left. exact (H n decl Hin).
+Qed.
 End C13.
 Print Assumptions C13_accepts_iff_signature_satisfied.
+Print Assumptions C13_initializer_backed_inputs_need_no_tensor.
 Print Assumptions C13_rejected_before_any_node.
 Print Assumptions C13_extra_tensors_ignored.
 
